@@ -180,8 +180,8 @@ func (a *easm) expr(e *Expr) {
 		a.op(0x48)
 	case "difficulty":
 		a.op(0x44)
-	case "blockhash": // of the previous block
-		a.push(1).op(opNUMBER, opSUB, 0x40)
+	case "blockhash": // of the block e.I (0: 1) below the current one
+		a.push(uint64(max(e.I, 1))).op(opNUMBER, opSUB, 0x40)
 	case "gasleft":
 		a.op(opGAS)
 	case "codesize":
